@@ -33,13 +33,15 @@ func emptyTimer() *time.Timer {
 }
 
 func resolveSource(s string, matches []string, query string) string {
+	// replace every placeholder in a single pass, so that text inserted
+	// by a substitution is never scanned for placeholders again
+	oldnew := make([]string, 0, 2*len(matches))
 	for i := len(matches) - 1; i >= 1; i-- {
-		s = strings.ReplaceAll(s, "$G"+strconv.FormatInt(int64(i), 10), matches[i])
+		oldnew = append(oldnew, "$G"+strconv.FormatInt(int64(i), 10), matches[i])
 	}
+	oldnew = append(oldnew, "$MTX_QUERY", query)
 
-	s = strings.ReplaceAll(s, "$MTX_QUERY", query)
-
-	return s
+	return strings.NewReplacer(oldnew...).Replace(s)
 }
 
 type staticSource interface {
